@@ -86,7 +86,7 @@ func init() {
 			}
 			// package names with upper-case letters, digits first, dots and plus signs
 			for _, f := range Formats {
-				for _, name := range []string{"libFoo", "LIB", "7zip", "a.b+c_d", "Ab-Cd"} {
+				for _, name := range []string{"libFoo", "LIB", "7zip", "a.b+c_d", "Ab-Cd", "pkg-dbgsym", "pkg-dbg", "pkg-dev", "pkg-doc", "pkg-debuginfo", "lib64foo1", "pkg.deb", "pkg-rpm", "x"} {
 					c := baseMeta()
 					c.Name, c.Release = name, "2"
 					if !yield(C15Case{Part: "name", Format: f, Cfg: c}) {
@@ -402,10 +402,17 @@ func checkC15(env *engine.Env, ci any) engine.Outcome {
 		put("packaging/scripts/post.sh", []byte("#!/bin/sh\necho DECOY next to the configuration file\n"), 0o755)
 		put("changelog.yaml", []byte(clA), 0o644)
 		put("packaging/changelog.yaml", []byte(clB), 0o644)
+		// files that other tools read variables from: the references of the configuration are answered by the process
+		// environment alone (the variable is unset there)
+		for _, n := range []string{".env", "packaging/.env", ".envrc", "packaging/nfpm.env", "nfpm.env"} {
+			put(n, []byte("C15_DOTENV_VAR=leaked-from-a-file\nexport C15_DOTENV_VAR\n"), 0o644)
+		}
 		mk := func(root string) string {
 			d := metaDoc(c.Cfg, f, t)
 			d["contents"] = []any{map[string]any{"src": filepath.Join(root, "files/app.conf"), "dst": "/etc/app.conf", "type": "config"}, map[string]any{"src": filepath.Join(root, "files") + "/", "dst": "/opt/files"}}
 			d["scripts"] = map[string]any{"postinstall": filepath.Join(root, "scripts/post.sh")}
+			d["depends"] = []any{"${C15_DOTENV_VAR}", "kept"}
+			d["vendor"] = "vendor${C15_DOTENV_VAR}"
 			if f == "deb" || f == "rpm" {
 				d["changelog"] = filepath.Join(root, "changelog.yaml")
 			}
@@ -422,6 +429,11 @@ func checkC15(env *engine.Env, ci any) engine.Outcome {
 			cmd.Stdin = strings.NewReader(relText)
 		}
 		cmd.Dir = work
+		for _, kv := range os.Environ() {
+			if !strings.HasPrefix(kv, "C15_DOTENV_VAR=") {
+				cmd.Env = append(cmd.Env, kv)
+			}
+		}
 		o, rerr := cmd.CombinedOutput()
 		out.Transitions++
 		out.Key = fmt.Sprintf("cli-relrefs:%s:%s:exit=%v", f, c.Invoke, rerr != nil)
